@@ -303,6 +303,7 @@ class World:
             for t in ths:
                 t.join()
             info['t_callers_done'] = s.now
+            info['connections_when_callers_done'] = sum(1 for a in self.sockmod.attempts if a[2] == 'connected')
             try:
                 cl.disconnect()
                 info['disconnect2'] = 'ok'
@@ -357,7 +358,10 @@ class World:
         udrop = state['user_drop_time']
         if state.get('lazy'):
             r.count('runs_connected_by_the_first_requests')
-            nconn = sum(1 for a in self.sockmod.attempts if a[2] == 'connected')
+            # (counted when the last caller has returned: the user's final disconnect() may itself trigger a short-lived
+            # reconnect - the mechanism of the listed .../with-user-disconnect findings -, which is not a connection opened
+            # by the first requests)
+            nconn = info.get('connections_when_callers_done', sum(1 for a in self.sockmod.attempts if a[2] == 'connected'))
             if nconn > 1 and first_drop_none(state):
                 r.violation('C11/connected-more-than-once', f'{nconn} connections were opened by the first requests of {len(scen["callers"])} callers (no connection was lost)', case)
                 return
